@@ -61,12 +61,28 @@ class C07(Check):
         return {"ws": gen_wire_ws(rng, defs=(2, 5)), "value_seed": rng.randrange(1 << 30), "nvalues": 3}
 
     def execute(self, scn: dict) -> Outcome:
-        from ..worlds.wire import Node, NodeError, apply_fault
-        import pydsdl
+        from .c06 import permuted_revision
         out = Outcome()
         W.validate_ws(scn["ws"])
+        self._run_node(scn, scn["ws"], out)
+        # history: a second revision of the namespace (same type names and versions, permuted / renamed fields) is decoded in
+        # the same process; nothing may be remembered from the first one
+        ws2 = permuted_revision(scn["ws"], scn["value_seed"])
+        if ws2 is not None:
+            try:
+                W.validate_ws(ws2)
+            except InvalidScenario:
+                ws2 = None
+        if ws2 is not None:
+            out.stats["second_revision_in_same_process"] += 1
+            self._run_node(dict(scn, nvalues=1), ws2, out, " (second revision)")
+        return out
+
+    def _run_node(self, scn: dict, ws: dict, out: Outcome, tag: str = "") -> None:
+        from ..worlds.wire import Node, NodeError, apply_fault
+        import pydsdl
         try:
-            node = Node(scn["ws"])
+            node = Node(ws)
         except NodeError as ex:
             raise InvalidScenario("front end rejected the namespace: %s" % ex)
         try:
@@ -78,10 +94,10 @@ class C07(Check):
                         rng = random.Random(scn["value_seed"] * 1000003 + i * 7919 + len(key) + si + (17 if hdr else 0))
                         v = V.gen_composite(rng, sec, in_range=True, p_omit=0.1)
                         b, marks, ctl = R.encode_ctl(res, key, si, v, with_header=hdr)
-                        base = self._decode_both(out, pydsdl, real, res, key, si, b, hdr, "%s[%d] intact" % (key, si))
+                        base = self._decode_both(out, pydsdl, real, res, key, si, b, hdr, "%s[%d]%s intact" % (key, si, tag))
                         for f in make_faults(rng, b, marks, ctl):
                             fb = apply_fault(b, f)
-                            where = "%s[%d]%s value %r bytes %s fault %s -> %s" % (key, si, " +hdr" if hdr else "", v, b.hex(), f, fb.hex())
+                            where = "%s[%d]%s%s value %r bytes %s fault %s -> %s" % (key, si, " +hdr" if hdr else "", tag, v, b.hex(), f, fb.hex())
                             got = self._decode_both(out, pydsdl, real, res, key, si, fb, hdr, where)
                             out.stats["messages"] += 1
                             out.stats["fault:" + f[0]] += 1
@@ -115,7 +131,6 @@ class C07(Check):
             out.obs.append([out.stats["messages"]])
         finally:
             node.close()
-        return out
 
     def _pos_class(self, f, b, marks, ctl) -> str:
         if f[0] == "set_bits":
